@@ -13,6 +13,16 @@
 
 #include "values.h"
 
+/* complete started binding message (log entries are messages of their own) */
+static ssize_t bindMessageEnd(MPT_INTERFACE(output) *out, MPT_STRUCT(msgtype) *mt)
+{
+	if (mt->cmd) {
+		return 0;
+	}
+	mt->cmd = MPT_MESGTYPE(Graphic);
+	return out->_vptr->push(out, 0, 0);
+}
+
 /*!
  * \ingroup mptPlot
  * \brief push bindings
@@ -72,6 +82,9 @@ extern int mpt_output_bind_string(MPT_INTERFACE(output) *out, const char *descr)
 		}
 		descr += len;
 		if (!str.change) {
+			if (bindMessageEnd(out, &mt) < 0) {
+				return -1;
+			}
 			(void) mpt_output_log(out, __func__, MPT_LOG(Error), "%s: %d: %s",
 			                       MPT_tr("identical data destination"), bnd.src.dim+1, descr-len);
 			str.change = 3;
@@ -82,6 +95,9 @@ extern int mpt_output_bind_string(MPT_INTERFACE(output) *out, const char *descr)
 		if (str.change & 4) bnd.dst.wld = str.val[2];
 		
 		if (!bnd.dst.lay || !bnd.dst.grf || !bnd.dst.wld) {
+			if (bindMessageEnd(out, &mt) < 0) {
+				return -1;
+			}
 			(void) mpt_output_log(out, __func__, MPT_LOG(Error), "%s: %d: %s",
 			                       MPT_tr("illegal data destination"), bnd.src.dim+1, descr - len);
 			str.change = 3;
@@ -110,7 +126,7 @@ extern int mpt_output_bind_string(MPT_INTERFACE(output) *out, const char *descr)
 		if ((len = dim++) == UINT8_MAX) break;
 	}
 	/* clear message data and registration */
-	if (len < 0 || out->_vptr->push(out, 0, 0) < 0) {
+	if (len < 0 || bindMessageEnd(out, &mt) < 0) {
 		out->_vptr->push(out, 1, 0);
 		return -1;
 	}
